@@ -372,6 +372,11 @@ class AerotechBase(EBPFTerminal):
     in_size = None
     out_size = None
 
+    @property
+    def fmmu_in_sz(self):
+        # only in_size bytes are reserved for us in the packet
+        return self.in_size
+
     def allocate(self, packet, readwrite):
         bases = {}
         if self.pdo_in_sz:
